@@ -27,6 +27,7 @@ tvars == <<l, tid, tprev, drift, contract, cnt>>
 ContractClause(r) ==
     IF r.kind \notin {"ok", "larkerror"} THEN "kind"
     ELSE IF IsSyntaxError(r) /\ ~(r.haspos /\ PosOK(r.line, r.col, r.nlines)) THEN "position"
+    ELSE IF ~PosExact(r) THEN "exact-position"
     ELSE IF r.kind = "ok" /\ ~r.isdict THEN "result-type"
     ELSE IF OutcomeOK(r) THEN "ok" ELSE "contract"
 
@@ -43,7 +44,7 @@ Verdict == PrintT(ToJson([tid |-> tid, drift |-> drift, contract |-> contract, n
 \* apply record r to the per-trace state (p = prev, d = drift so far, c = contract so far, n = events)
 Apply(r, p, d, c, n) ==
     IF r.ev = "tok"
-    THEN /\ tprev' = [k |-> "tok", ty |-> (IF r.after = "~aborted" THEN r.before ELSE r.after), v |-> r.v]
+    THEN /\ tprev' = [k |-> "tok", ty |-> (IF r.after = "~aborted" THEN r.before ELSE r.after), v |-> r.v, lv |-> r.lv]
          /\ drift' = IF d # "" THEN d ELSE TokDrift(p, r)
          /\ contract' = c
          /\ cnt' = n + 1
